@@ -33,6 +33,11 @@ type IcSpec struct {
 type HoldSpec struct {
 	Kind string `json:"kind"`
 	Nth  int    `json:"nth"`
+	Fin  bool   `json:"fin,omitempty"` // count only occurrences whose message is a fin marker
+	// Until/UntilNth: the gate opens by itself at that occurrence (otherwise when the next wave was submitted)
+	Until    string `json:"until,omitempty"`
+	UntilNth int    `json:"untilnth,omitempty"`
+	UntilFin bool   `json:"untilfin,omitempty"` // count only occurrences of Until whose message is a fin marker
 }
 
 // Scenario is one deterministic description of a run.
@@ -230,7 +235,19 @@ func Run(sc *Scenario) *Result {
 	}
 	var gates []*Gate
 	for _, h := range sc.Holds {
-		gates = append(gates, obs.Hold(h.Kind, h.Nth, nil))
+		isFin := func(e *sarama.VerifProdEvent) bool { return e.Msg != nil && e.Msg.Flags&2 != 0 }
+		var match, umatch func(*sarama.VerifProdEvent) bool
+		if h.Fin {
+			match = isFin
+		}
+		if h.UntilFin {
+			umatch = isFin
+		}
+		g := obs.Hold(h.Kind, h.Nth, match)
+		if h.Until != "" {
+			g.ReleaseOn(h.Until, h.UntilNth, umatch)
+		}
+		gates = append(gates, g)
 	}
 	obs.Install()
 	defer obs.Uninstall()
@@ -367,8 +384,10 @@ func Run(sc *Scenario) *Result {
 			gates[w-1].Release()
 		}
 	}
-	for _, g := range gates {
-		g.Release()
+	for i, g := range gates {
+		if sc.Holds[i].Until == "" {
+			g.Release()
+		}
 	}
 
 	done := make(chan struct{})
@@ -458,10 +477,15 @@ func ChaserAsMessage(evs []Ev) bool {
 
 // submit sends on Input() with a bound: a stuck pipeline must not hang the harness.
 func submit(p sarama.AsyncProducer, m *sarama.ProducerMessage) bool {
+	bound := 3 * time.Second
+	if hangsSeen >= 2 {
+		bound = 300 * time.Millisecond
+	}
 	select {
 	case p.Input() <- m:
 		return true
-	case <-time.After(3 * time.Second):
+	case <-time.After(bound):
+		hangsSeen++
 		return false
 	}
 }
